@@ -15,9 +15,12 @@ import (
 	"google.golang.org/grpc/status"
 	"google.golang.org/protobuf/proto"
 	"google.golang.org/protobuf/types/known/durationpb"
+	"google.golang.org/protobuf/types/known/fieldmaskpb"
+	"google.golang.org/protobuf/types/known/timestamppb"
 
 	"github.com/smart-core-os/sc-api/go/traits"
 	"github.com/smart-core-os/sc-golang/pkg/resource"
+	"github.com/smart-core-os/sc-golang/pkg/trait/countpb"
 	"github.com/smart-core-os/sc-golang/pkg/trait/enterleavesensorpb"
 	"github.com/smart-core-os/sc-golang/pkg/trait/publicationpb"
 	"github.com/smart-core-os/sc-golang/pkg/trait/vendingpb"
@@ -60,6 +63,14 @@ func (p P) msg() *durationpb.Duration { return &durationpb.Duration{Seconds: p.A
 //	       then the same in every message)
 //	K="q": publicationpb.ModelServer.DeletePublication(version of the body Expect.A, allow_missing AM) (a Delete
 //	       of model id 5 with that expected value)
+//
+// and write HANDLERS of a trait server (request in, response out: what is judged is the RESPONSE the handler gives):
+//
+//	K="c": countpb.MemoryDevice.UpdateCount: F="a<k>" | "b<k>" = {delta: true, count{added | removed: k}} (a
+//	       fetch-and-add: the answer is the count after THIS call's increment), F="s<a>.<b>" = {count{added: a,
+//	       removed: b}}; Mask = the request's update mask (added / removed); the message a.b is added.removed
+//	       (model id 8: a Value.Set with the handler's own delta interceptor)
+//	K="z": countpb.MemoryDevice.ResetCount (F="s0.0": a Set of 0.0 with all fields writable)
 type Op struct {
 	K      string `json:"k"`
 	ID     int    `json:"id"`
@@ -74,6 +85,9 @@ type Op struct {
 	WT     *int64 `json:"wt,omitempty"`      // WithWriteTime
 	ViaAdd bool   `json:"via_add,omitempty"` // (with EA and CIA) call Collection.Add, which supplies those two options itself
 	After  bool   `json:"after,omitempty"`   // InterceptAfter: field b of the result = old b + 1 (a revision counter kept by the writer)
+	// Sp: how the caller spells the id (scenarios whose collection has an id interceptor): 0 = the canonical form
+	// ("i3", the interceptor's image, what the item is stored under), 1 = another spelling of the same id ("I3")
+	Sp int `json:"sp,omitempty"`
 	// Rivals are complete calls made from inside this call's own callback, where no lock is held: the i-th
 	// invocation of the callback runs Rivals[i] first (an Update/Set invokes it once, a Delete once per attempt).
 	Rivals  []Op   `json:"rivals,omitempty"`
@@ -83,11 +97,14 @@ type Op struct {
 const valueID = 9
 const vendID = 7  // the stock record of the vending model
 const enterID = 6 // the Value of the enter-leave model
+const countID = 8 // the Value of the count device
 
 // trait: the call goes through a trait model's own read-modify-write caller
 const pubID = 5 // the publication of the publication model
 
-func (o Op) trait() bool { return o.K == "x" || o.K == "e" || o.K == "p" || o.K == "q" }
+func (o Op) trait() bool {
+	return o.K == "x" || o.K == "e" || o.K == "p" || o.K == "q" || o.K == "c" || o.K == "z"
+}
 
 const genBase = 100 // model ids of generated ids: genBase + 10*candidate + try
 
@@ -103,6 +120,12 @@ type Scenario struct {
 	// it read (update masks of such a scenario name the writable field only: anything else is refused by
 	// FieldUpdater.Validate before the write path is entered).
 	Writable string `json:"writable,omitempty"`
+	// Icpt: the Collection is configured WithIDInterceptor(strings.ToLower): callers may spell an id in a form that
+	// is not what the item is stored under (Op.Sp); every spelling is the same id (the model works on the images)
+	Icpt bool `json:"icpt,omitempty"`
+	// Pub: the publication after the commit is a step of its own (family publish-window): threads also park at
+	// value.set.beforeSend / coll.update.beforeSend, i.e. with their value stored and their call not yet returned
+	Pub bool `json:"pub,omitempty"`
 }
 
 func (sc Scenario) clock() string {
@@ -180,6 +203,10 @@ func (o Op) encode() string {
 		return fmt.Sprintf("u/%d/C/0/0/%s/n/%s/-/-", pubID, optP(o.Expect), o.F)
 	case "q":
 		return fmt.Sprintf("d/%d/%s/%s/n", pubID, b01(o.AM), optP(o.Expect))
+	case "c":
+		return fmt.Sprintf("u/%d/V/0/0/-/n/%s/%s/-", countID, o.F, o.mask())
+	case "z":
+		return fmt.Sprintf("u/%d/V/0/0/-/n/s0.0/-/-", countID)
 	}
 	return "?"
 }
@@ -195,6 +222,8 @@ func (o Op) target() int {
 		return enterID
 	case "p", "q":
 		return pubID
+	case "c", "z":
+		return countID
 	}
 	if o.Gen {
 		return -1
@@ -307,6 +336,14 @@ func idName(id int) string {
 	return base64.RawURLEncoding.EncodeToString(b)
 }
 
+// spelled: the id as the caller of this op writes it
+func (o Op) spelled() string {
+	if o.Sp != 0 {
+		return strings.ToUpper(idName(o.ID))
+	}
+	return idName(o.ID)
+}
+
 func idOf(name string) int {
 	if strings.HasPrefix(name, "i") {
 		if n, err := strconv.Atoi(name[1:]); err == nil {
@@ -333,6 +370,10 @@ type world struct {
 	enter *enterleavesensorpb.Model
 	pub   *publicationpb.ModelServer
 	pubM  *publicationpb.Model
+	count *countpb.MemoryDevice
+	// the reset time every ResetCount of this world asks for: the one the device was created with (the message
+	// a.b leaves the reset time out, so it is kept the same: a reset is then the write of 0.0 and nothing else)
+	resetAt *timestamppb.Timestamp
 
 	// calls made from inside callbacks, in the order they ran
 	mu     sync.Mutex
@@ -363,11 +404,14 @@ func newWorld(sc Scenario, free bool) *world {
 		v := sc.Init[strconv.Itoa(id)]
 		if id == valueID {
 			vopts = append(vopts, resource.WithInitialValue(v.msg()))
-		} else if id == vendID || id == enterID || id == pubID {
+		} else if id == vendID || id == enterID || id == pubID || id == countID {
 			continue
 		} else {
 			copts = append(copts, resource.WithInitialRecord(idName(id), v.msg()))
 		}
+	}
+	if sc.Icpt {
+		copts = append(copts, resource.WithIDInterceptor(strings.ToLower))
 	}
 	w.coll = resource.NewCollection(copts...)
 	w.val = resource.NewValue(vopts...)
@@ -399,6 +443,18 @@ func newWorld(sc Scenario, free bool) *world {
 			// created through the server, which mints the version (the constructor's clock instant is 0 as well)
 			if _, err := w.pub.CreatePublication(context.Background(), &traits.CreatePublicationRequest{Publication: pubMsg(v.A)}); err != nil {
 				panic("c02: CreatePublication: " + err.Error())
+			}
+		}
+	}
+	if sc.usesTrait("c") || sc.usesTrait("z") {
+		// the device always holds a count (0.0 when new); another start value is written through the handler
+		w.count = countpb.NewMemoryDevice()
+		if m, err := w.count.GetCount(context.Background(), &traits.GetCountRequest{Name: "c"}); err == nil {
+			w.resetAt = m.GetResetTime()
+		}
+		if v := sc.Init[strconv.Itoa(countID)]; v != (P{}) {
+			if _, err := w.count.UpdateCount(context.Background(), &traits.UpdateCountRequest{Count: &traits.Count{Added: int32(v.A), Removed: int32(v.B)}}); err != nil {
+				panic("c02: UpdateCount: " + err.Error())
 			}
 		}
 	}
@@ -463,6 +519,11 @@ func msgVal(m proto.Message) (P, bool) {
 			return P{}, false
 		}
 		return P{int64(t.GetEnterTotal()), int64(t.GetLeaveTotal())}, true
+	case *traits.Count:
+		if t == nil {
+			return P{}, false
+		}
+		return P{int64(t.GetAdded()), int64(t.GetRemoved())}, true
 	case *traits.Publication:
 		if t == nil {
 			return P{}, false
@@ -601,7 +662,7 @@ func (w *world) exec(o Op, genID *int) string {
 	switch o.K {
 	case "u":
 		msg, opts := w.writeOpts(o, genID)
-		id := idName(o.ID)
+		id := o.spelled()
 		if o.Gen {
 			id = ""
 		}
@@ -620,7 +681,7 @@ func (w *world) exec(o Op, genID *int) string {
 		return canon(w.val.Set(msg, opts...))
 	case "d":
 		_, opts := w.writeOpts(o, genID)
-		m, err := w.coll.Delete(idName(o.ID), opts...)
+		m, err := w.coll.Delete(o.spelled(), opts...)
 		return canon(m, err)
 	case "x":
 		k, _ := strconv.ParseInt(o.F[1:], 10, 64)
@@ -647,6 +708,38 @@ func (w *world) exec(o Op, genID *int) string {
 			req.Version = versionOf(o.Expect.A)
 		}
 		m, err := w.pub.DeletePublication(context.Background(), req)
+		if m == nil {
+			return canon(nil, err)
+		}
+		return canon(m, err)
+	case "c":
+		req := &traits.UpdateCountRequest{Name: "c", Count: &traits.Count{}}
+		k, _ := strconv.ParseInt(o.F[1:], 10, 64)
+		switch o.F[0] {
+		case 'a':
+			req.Delta, req.Count.Added = true, int32(k)
+		case 'b':
+			req.Delta, req.Count.Removed = true, int32(k)
+		default:
+			var p P
+			_ = p.UnmarshalText([]byte(o.F[1:]))
+			req.Count.Added, req.Count.Removed = int32(p.A), int32(p.B)
+		}
+		switch o.Mask {
+		case "a":
+			req.UpdateMask = &fieldmaskpb.FieldMask{Paths: []string{"added"}}
+		case "b":
+			req.UpdateMask = &fieldmaskpb.FieldMask{Paths: []string{"removed"}}
+		case "ab":
+			req.UpdateMask = &fieldmaskpb.FieldMask{Paths: []string{"added", "removed"}}
+		}
+		m, err := w.count.UpdateCount(context.Background(), req)
+		if m == nil {
+			return canon(nil, err)
+		}
+		return canon(m, err)
+	case "z":
+		m, err := w.count.ResetCount(context.Background(), &traits.ResetCountRequest{Name: "c", ResetTime: w.resetAt})
 		if m == nil {
 			return canon(nil, err)
 		}
@@ -727,6 +820,12 @@ func (w *world) contents() (map[int]P, map[int]int64) {
 			cancel()
 		}
 	}
+	if w.count != nil {
+		// (the device reads the system clock: the change time it stores is not compared)
+		if m, err := w.count.GetCount(context.Background(), &traits.GetCountRequest{Name: "c"}); err == nil {
+			vals[countID], _ = msgVal(m)
+		}
+	}
 	if w.enter != nil {
 		ctx, cancel := context.WithCancel(context.Background())
 		select {
@@ -775,6 +874,11 @@ func (w *world) snapshot() string {
 		for _, m := range w.pubM.ListPublications() {
 			show(m)
 		}
+	}
+	if w.count != nil {
+		sb.WriteString("| ")
+		m, _ := w.count.GetCount(context.Background(), &traits.GetCountRequest{Name: "c"})
+		show(m)
 	}
 	return sb.String()
 }
@@ -875,6 +979,8 @@ func specApply(st map[int]P, o Op, genID int) string {
 		kind = "u"
 	case "q":
 		kind = "d"
+	case "c", "z": // UpdateCount / ResetCount: a Set of the device's Value
+		kind = "v"
 	}
 	switch kind {
 	case "u", "v":
